@@ -1,6 +1,6 @@
 (* Executable entry points compared with the implementation by ./check C15. *)
 From ZV Require Import Prelude GoSem Paging.
-From ZV Require Export Handler Frame Session BaseMsg EncHs.
+From ZV Require Export Handler Frame Session BaseMsg EncHs Discv.
 From ZV.gen Require Import Consts.
 Open Scope Z_scope.
 
@@ -106,3 +106,18 @@ Definition auth_listen_run (i : bool * Z * bool * bool * bool * bool * Z * Z * l
 Definition auth_dial_run (i : bool * Z * bool * bool * bool * Z * Z * list Z * bool * Z * bool * bool) : Z :=
   let '(coarse, got, d, e, m, size, code, p, dec, v, z, im) := i in
   conn_code coarse (dial_conn got d e m size code p dec v z im).
+
+(* ---- the live discovery endpoint (Discv.v) *)
+Definition dv_consts_run (i : Z) : list Z := dv_consts.
+(* in: (kind, decodes, expiration, clock, version, sender known, table entries handed out); out: (pongs, neighbors datagrams, entries) *)
+Definition disc_handle_run (i : Z * bool * Z * Z * Z * bool * Z) : Z * Z * Z :=
+  let '(kind, d, ts, now, v, known, c) := i in disc_handle kind d ts now v known c.
+Definition zzz_eqb (a b : Z * Z * Z) : bool :=
+  let '(a1, a2, a3) := a in let '(b1, b2, b3) := b in (a1 =? b1) && (a2 =? b2) && (a3 =? b3).
+(* in: (decodes, expired, a pending entry of the same sender and type exists); out: handed to the callback *)
+Definition disc_reply_run (i : bool * bool * bool) : bool := let '(d, e, p) := i in disc_reply d e p.
+(* in: (address bytes, udp port); out: 1 the entry becomes a node, 0 not, 9 panic *)
+Definition node_from_rpc_run (i : list Z * Z) : Z :=
+  match node_from_rpc (fst i) (snd i) with Ok true => 1 | Ok false => 0 | Panic => 9 end.
+Definition findnode_collect_run (l : list Z) : list bool := findnode_collect l.
+Definition bl_eqb : list bool -> list bool -> bool := list_eqb Bool.eqb.
